@@ -33,7 +33,21 @@ asciis = st.text(alphabet=st.characters(min_codepoint=33, max_codepoint=126), ma
 numlike = st.sampled_from(NUMLIKE)
 ints = st.one_of(st.integers(-10 ** 6, 10 ** 6), st.sampled_from([0, 2 ** 53 + 1, -(2 ** 53) - 1, 2 ** 53 - 1, 10 ** 30, 2 ** 63, -10 ** 30]))
 floats_ = st.floats(allow_nan=True, allow_infinity=True)
-values = st.one_of(ints, floats_, asciis, numlike)
+# numpy scalars, as produced by any numerical code that fills the parameters (held in the case as {"np64": x} / {"npi": n})
+np_floats = st.floats(allow_nan=False, allow_infinity=False).map(lambda x: {"np64": x})
+np_ints = st.integers(-10 ** 6, 10 ** 6).map(lambda n: {"npi": n})
+values = st.one_of(ints, floats_, asciis, numlike, np_floats, np_ints)
+
+
+def real_value(v):
+    """decode a value of the case into the object handed to the library"""
+    import numpy as _np
+    if isinstance(v, dict):
+        if "np64" in v:
+            return _np.float64(v["np64"])
+        if "npi" in v:
+            return _np.int64(v["npi"])
+    return v
 
 
 def coerce(v):
@@ -52,6 +66,16 @@ def coerce(v):
 
 
 def same(a, b):
+    import numpy as _np
+    # a numpy scalar and the Python number it prints as are the same value for the purposes of the model
+    if isinstance(a, _np.floating):
+        a = float(a)
+    if isinstance(b, _np.floating):
+        b = float(b)
+    if isinstance(a, _np.integer):
+        a = int(a)
+    if isinstance(b, _np.integer):
+        b = int(b)
     if type(a) is not type(b):
         return False
     if type(a) is float:
@@ -66,6 +90,9 @@ class Bag(object):
 
 
 def _saveable(v):
+    import numpy as _np
+    if isinstance(v, (_np.floating, _np.integer)):
+        return True
     return type(v) in (int, float, str) and (type(v) is not str or not any(c.isspace() for c in v))
 
 
@@ -90,7 +117,7 @@ class Sim(object):
     def apply(self, op):
         k = op["op"]
         if k == "construct":
-            self.__init__(self.tmp, {kk: vv for kk, vv in op["kw"]})
+            self.__init__(self.tmp, {kk: real_value(vv) for kk, vv in op["kw"]})
             self.compare(k)
             return self.fails
         getattr(self, "op_" + k)(op)
@@ -99,7 +126,7 @@ class Sim(object):
 
     # ---- operations
     def op_addpar(self, op):
-        n, v = op["n"], op["v"]
+        n, v = op["n"], real_value(op["v"])
         self.real.addpar(self.P.par(n, v, vary=op["vary"], can_vary=op["can"], stepsize=op["step"]))
         self.model[n] = v
         if op["vary"] and n not in self.vary:
@@ -109,11 +136,12 @@ class Sim(object):
             self.steps[n] = op["step"]
 
     def op_set(self, op):
-        self.real.set(op["n"], op["v"])
-        self.model[op["n"]] = op["v"]
+        v = real_value(op["v"])
+        self.real.set(op["n"], v)
+        self.model[op["n"]] = v
 
     def op_set_parameters(self, op):
-        d = {k: v for k, v in op["d"]}
+        d = {k: real_value(v) for k, v in op["d"]}
         passed = dict(d)
         self.real.set_parameters(passed)
         passed.clear()                      # the caller's dict is the caller's: clearing it must not affect the object
@@ -144,7 +172,7 @@ class Sim(object):
             self.fail("set_varylist/changed-on-error", "varylist changed by a rejected set_varylist")
 
     def op_set_variable_values(self, op):
-        vals = list(op["vals"])
+        vals = [real_value(v) for v in op["vals"]]
         if len(vals) == len(self.vary):
             self.real.set_variable_values(vals)
             for n, v in zip(self.vary, vals):
@@ -158,7 +186,7 @@ class Sim(object):
 
     def op_update_yourself(self, op):
         o = Bag()
-        attrs = {k: v for k, v in op["attrs"]}
+        attrs = {k: real_value(v) for k, v in op["attrs"]}
         for k, v in attrs.items():
             setattr(o, k, v)
         self.real.update_yourself(o)
@@ -168,7 +196,7 @@ class Sim(object):
 
     def op_update_other(self, op):
         o = Bag()
-        attrs = {k: v for k, v in op["attrs"]}
+        attrs = {k: real_value(v) for k, v in op["attrs"]}
         for k, v in attrs.items():
             setattr(o, k, v)
         self.real.update_other(o)
@@ -218,7 +246,8 @@ class Sim(object):
             kk = k.replace("-", "_")
             if sum(1 for x in self.model if x.replace("-", "_") == kk) > 1:
                 continue
-            if type(v) in (int, float) or (type(v) is str and type(coerce(v)) is str and v == v.strip()):
+            import numpy as _np
+            if type(v) in (int, float) or isinstance(v, (_np.floating, _np.integer)) or (type(v) is str and type(coerce(v)) is str and v == v.strip()):
                 if kk not in got or not same(got[kk], v):
                     self.fail("roundtrip-value", "%r = %r saved, %r loaded" % (k, v, got.get(kk, "<missing>")))
         if "numlike-set" in self.flags:
@@ -404,7 +433,8 @@ def check(case, ctx):
                         ctx.fail(b, m)
                     break
         else:
-            ents = [(k, v) for k, v in case["entries"] if _saveable(v)]
+            ents = [(k, real_value(v)) for k, v in case["entries"]]
+            ents = [(k, v) for k, v in ents if _saveable(v)]
             for k, v in ents:
                 sim.real.set(k, v)
                 sim.model[k] = v
